@@ -267,6 +267,7 @@ def lamOk (seIdx : Nat) (Φ : List (Sym × Nat)) (dom : List Sym) (f : Sym) (ps 
 def letOk (Φ : List (Sym × Nat)) (x : Sym) (e₁ : Expr) : Bool :=
   decide (x ≠ dummySym) && (lookupScope Φ x).isNone && inF Φ e₁
 
+mutual
 /-- **F3 (partial): closure creation.** F2, preceded by any chain of lambda bindings
     `let f ps = body in …` (bodies in F2, may call themselves and the earlier functions of the
     chain with exact arity, capture any variables in scope) and plain bindings `let x = e₁ in …`
@@ -279,7 +280,17 @@ def inF3 (seIdx : Nat) : Expr → List (Sym × Nat) → List Sym → Bool
     | _ => false
   | .letE x e₁ body, Φ, dom =>
     inF Φ (.letE x e₁ body) || (letOk Φ x e₁ && inF3 seIdx body Φ (x :: dom))
+  | .match_ s alts, Φ, dom =>
+    inF Φ (.match_ s alts) || (inF Φ s && inF3Alt seIdx alts Φ dom)
   | e, Φ, _ => inF Φ e
+/-- a record pattern as the only alternative (`let { … } = s in e`; the two wrappers
+    `match @std.types with {} -> match @std.prim with { error } -> …` every program compiled
+    without the implicit prelude starts with): the alternative's body goes on in F3 -/
+def inF3Alt (seIdx : Nat) : List (Pat × Expr) → List (Sym × Nat) → List Sym → Bool
+  | [(p, e)], Φ, dom =>
+    patOk p && patFresh Φ p && isRec p && inF3 seIdx e Φ (patBinders p ++ dom)
+  | _, _, _ => false
+end
 
 inductive InF3 (seIdx : Nat) : List (Sym × Nat) → List Sym → Expr → Prop where
   | base {Φ dom e} : inF Φ e = true → InF3 seIdx Φ dom e
@@ -287,6 +298,8 @@ inductive InF3 (seIdx : Nat) : List (Sym × Nat) → List Sym → Expr → Prop 
       InF3 seIdx ((f, ps.length) :: Φ) (f :: dom) rest → InF3 seIdx Φ dom (.letRec [(f, ps, body)] rest)
   | letE {Φ dom x e₁ body} : letOk Φ x e₁ = true → InF3 seIdx Φ (x :: dom) body →
       InF3 seIdx Φ dom (.letE x e₁ body)
+  | matchRec {Φ dom s p e} : inF Φ s = true → patOk p = true → patFresh Φ p = true →
+      isRec p = true → InF3 seIdx Φ (patBinders p ++ dom) e → InF3 seIdx Φ dom (.match_ s [(p, e)])
 
 theorem inF3_sound (seIdx : Nat) : ∀ (e : Expr) (Φ : List (Sym × Nat)) (dom : List Sym),
     inF3 seIdx e Φ dom = true → InF3 seIdx Φ dom e
@@ -306,7 +319,16 @@ theorem inF3_sound (seIdx : Nat) : ∀ (e : Expr) (Φ : List (Sym × Nat)) (dom 
   | .ident x, Φ, dom, h => .base (by simpa [inF3] using h)
   | .call f args, Φ, dom, h => .base (by simpa [inF3] using h)
   | .data k args, Φ, dom, h => .base (by simpa [inF3] using h)
-  | .match_ s alts, Φ, dom, h => .base (by simpa [inF3] using h)
+  | .match_ s alts, Φ, dom, h => by
+    simp only [inF3, Bool.or_eq_true, Bool.and_eq_true] at h
+    rcases h with h | h
+    · exact .base h
+    · match alts, h with
+      | [(p, e)], h =>
+        simp only [inF3Alt, Bool.and_eq_true] at h
+        exact .matchRec h.1 h.2.1.1.1 h.2.1.1.2 h.2.1.2 (inF3_sound seIdx e _ _ h.2.2)
+      | [], h => simp [inF3Alt] at h
+      | _ :: _ :: _, h => simp [inF3Alt] at h
   | .cast e, Φ, dom, h => .base (by simpa [inF3] using h)
 
 /-- what `compileBody` guarantees for an expression of F3: as `BodySpec`, but the run may extend
@@ -616,14 +638,6 @@ theorem letE_spec3 {seIdx : Nat} {Φ : List (Sym × Nat)} {dom : List Sym} {x : 
         simpa [Nat.add_assoc, List.append_assoc] using this
       · exact ErrH.prepend (ExecH.of_exec ex1) (herr2 he)
 
-/-- the invariant for every expression of F3 -/
-theorem body_spec3 (seIdx : Nat) {Φ : List (Sym × Nat)} {dom : List Sym} {e : Expr}
-    (hF : InF3 seIdx Φ dom e) : BodySpec3 seIdx Φ dom e := by
-  induction hF with
-  | base h => exact base_spec3 h
-  | lam hok _ ih => exact lam_spec hok ih
-  | letE hok _ ih => exact letE_spec3 hok ih
-
 /-- what `compile` (with the final `Slide`) guarantees for F3 -/
 theorem wrap_spec3 {seIdx : Nat} {Φ : List (Sym × Nat)} {dom : List Sym} {e : Expr}
     (hb : BodySpec3 seIdx Φ dom e) (tail : Bool) (b : Nat) (st : FState) :
@@ -680,5 +694,229 @@ theorem wrap_spec3 {seIdx : Nat} {Φ : List (Sym × Nat)} {dom : List Sym} {e : 
       have := Exec.step (fn := fn) (upv := upv) (h := h') hs.head
         (step_slide fn upv _ stk L v h' N.length hL)
       exact (dn.andThen this).to (by simp [Nat.add_assoc]) rfl
+
+/-! ### A record pattern as the only alternative (`let { … } = e`, the prelude wrappers) -/
+
+theorem bindFields_isSome (poly : Bool) (fs : List Val) (ns : List String) :
+    ∀ (fields : List PatField) (ρ ρ' : Env), bindFields poly fields fs ns ρ = some ρ' →
+      ∀ y, (y ∈ fields.map (·.binder) ∨ (lookup ρ y).isSome = true) → (lookup ρ' y).isSome = true
+  | [], ρ, ρ', h, y, hy => by
+    simp only [bindFields, Option.some.injEq] at h; subst h
+    rcases hy with hy | hy
+    · simp at hy
+    · exact hy
+  | f :: rest, ρ, ρ', h, y, hy => by
+    simp only [bindFields] at h
+    cases hfo : fieldOf poly f fs ns with
+    | none => simp [hfo] at h
+    | some w =>
+      simp only [hfo] at h
+      refine bindFields_isSome poly fs ns rest _ ρ' h y ?_
+      rcases hy with hy | hy
+      · simp only [List.map_cons, List.mem_cons] at hy
+        rcases hy with hy | hy
+        · right; simp [lookup, hy]
+        · left; exact hy
+      · right
+        by_cases hyb : y = f.binder
+        · simp [lookup, hyb]
+        · rw [lookup_cons_ne hyb]; exact hy
+
+theorem bindAll_isSome : ∀ (args : List Sym) (fs : List Val) (ρ : Env), args.length = fs.length →
+    ∀ y, (y ∈ args ∨ (lookup ρ y).isSome = true) → (lookup (bindAll args fs ρ) y).isSome = true
+  | [], [], ρ, _, y, hy => by
+    rcases hy with hy | hy
+    · simp at hy
+    · simpa [bindAll] using hy
+  | [], _ :: _, _, h, _, _ => by simp at h
+  | _ :: _, [], _, h, _, _ => by simp at h
+  | a :: args, v :: fs, ρ, h, y, hy => by
+    simp only [bindAll]
+    refine bindAll_isSome args fs _ (by simpa using h) y ?_
+    rcases hy with hy | hy
+    · simp only [List.mem_cons] at hy
+      rcases hy with hy | hy
+      · right; simp [lookup, hy]
+      · left; exact hy
+    · right
+      by_cases hya : y = a
+      · simp [lookup, hya]
+      · rw [lookup_cons_ne hya]; exact hy
+
+/-- a selected pattern binds its variables and keeps everything else bound -/
+theorem matchPat_isSome {p : Pat} {sv : Val} {ρ ρ' : Env} (hm : matchPat p sv ρ = some (some ρ'))
+    (y : Sym) (hy : y ∈ patBinders p ∨ (lookup ρ y).isSome = true) : (lookup ρ' y).isSome = true := by
+  cases p with
+  | record nfields poly fields bt =>
+    cases sv with
+    | data t fs ns =>
+      simp only [matchPat] at hm
+      split at hm
+      · simp at hm
+      · cases hbf : bindFields poly fields fs ns ρ with
+        | none => simp [hbf] at hm
+        | some r =>
+          simp [hbf] at hm; subst hm
+          exact bindFields_isSome poly fs ns fields ρ r hbf y hy
+    | _ => simp [matchPat] at hm
+  | ident x =>
+    simp only [matchPat, Option.some.injEq] at hm; subst hm
+    rcases hy with hy | hy
+    · simp only [patBinders, List.mem_singleton] at hy
+      simp [lookup, hy]
+    · by_cases hyx : y = x
+      · simp [lookup, hyx]
+      · rw [lookup_cons_ne hyx]; exact hy
+  | lit l =>
+    simp only [matchPat, Option.map_eq_some_iff] at hm
+    obtain ⟨bb, _, hb⟩ := hm
+    split at hb
+    · simp only [Option.some.injEq] at hb; subst hb
+      rcases hy with hy | hy
+      · simp [patBinders] at hy
+      · exact hy
+    · simp at hb
+  | ctor tag args =>
+    cases tag with
+    | none => cases sv <;> simp [matchPat] at hm
+    | some t =>
+      cases sv with
+      | data t' fs ns =>
+        simp only [matchPat] at hm
+        split at hm
+        · split at hm
+          · rename_i hl
+            simp only [Option.some.injEq] at hm; subst hm
+            exact bindAll_isSome args fs ρ hl y hy
+          · simp at hm
+        · simp at hm
+      | _ => simp [matchPat] at hm
+
+theorem matchRec_spec3 {seIdx : Nat} {Φ : List (Sym × Nat)} {dom : List Sym} {s : Expr} {p : Pat}
+    {e : Expr} (hsF : inF Φ s = true) (hp : patOk p = true) (hfr : patFresh Φ p = true)
+    (hr : isRec p = true) (ih : BodySpec3 seIdx Φ (patBinders p ++ dom) e) :
+    BodySpec3 seIdx Φ dom (.match_ s [(p, e)]) := by
+  have hs := wrap_of_body (body_spec seIdx Φ s hsF)
+  intro tail b st S rest hsc
+  obtain ⟨hs0, hz0, hx0, hd0⟩ := hs false b st
+  have hi0 : (compileE seIdx s false b st).2.inner = st.inner := inner_E seIdx Φ s hsF false b st
+  rw [compileBody_match]
+  generalize hR0 : compileE seIdx s false b st = R0 at *
+  have hts : testsOf seIdx [(p, e)] R0.2 = ([[]], R0.2) := by
+    cases p with
+    | record _ _ _ _ => simp [testsOf, testCode]
+    | ctor _ _ => simp [isRec] at hr
+    | ident _ => simp [isRec] at hr
+    | lit _ => simp [isRec] at hr
+  rw [hts]
+  simp only [testsLen, Nat.add_zero]
+  -- the alternative
+  obtain ⟨hps, hpz⟩ := prologue_static p hp R0.2 st.stackSize hz0
+  have hpsame := prologue_same p hp R0.2
+  have hpin : (prologue p R0.2.enterScope).2.inner = R0.2.inner := inner_prologue p _
+  obtain ⟨hs2, hz2, hx2, hin2, hd2⟩ := wrap_spec3 ih tail
+    (b + R0.1.length + (prologue p R0.2.enterScope).1.length) (prologue p R0.2.enterScope).2
+  rw [compileAlts_cons]
+  generalize hR2 : compileE seIdx e tail (b + R0.1.length + (prologue p R0.2.enterScope).1.length)
+    (prologue p R0.2.enterScope).2 = R2 at *
+  have hex : R2.2.exitScope = ((patVars st.stackSize p).length, { R2.2 with scopes := R0.2.scopes }) := by
+    simp [FState.exitScope, hs2, hps]
+  have hf1 : (finishScope (([] : List Instr), R2.2)).1 = slideCode (patVars st.stackSize p).length := by
+    simp [finishScope, hex]
+  have hf2s : (finishScope (([] : List Instr), R2.2)).2.scopes = R0.2.scopes := by
+    simp only [finishScope, hex]
+    split <;> simp [FState.emit]
+  have hf2z : (finishScope (([] : List Instr), R2.2)).2.stackSize = st.stackSize + 1 := by
+    simp only [finishScope, hex]
+    split
+    · rename_i h0; simp [hz2, hpz, h0]
+    · simp [FState.emit, adjustSize_slide, hz2, hpz]
+      omega
+  have hf2t : SameTabs R2.2 (finishScope (([] : List Instr), R2.2)).2 :=
+    same_finish (([] : List Instr), R2.2)
+  have hf2i : (finishScope (([] : List Instr), R2.2)).2.inner = R2.2.inner := inner_finish _
+  generalize hR3 : finishScope (([] : List Instr), R2.2) = R3 at *
+  simp only [compileAlts, startsOf, patchTests, patchLast, List.getLast?_nil, List.append_nil]
+  refine ⟨[], by simp [hf2s, hs0, hsc], by simp [hf2z],
+    hx0.trans ((hpsame.ext.trans hx2).trans hf2t.ext), ?_, ?_⟩
+  · rw [hf2i]; rw [hpin, hi0] at hin2; exact hin2
+  intro K fuel hK fn upv fv h ρ stk hseg htab hinn hlen hag hdum hdom
+  cases fuel with
+  | zero => simp [evalCore]
+  | succ n =>
+    obtain ⟨hok0, herr0⟩ := hd0 K n (by omega) fn upv fv h ρ stk hseg.left
+      (htab.of_ext ((hpsame.ext.trans hx2).trans hf2t.ext)) hlen hag hdum
+    simp only [evalCore]
+    cases he0 : evalCore n ρ s with
+    | error err =>
+      refine ⟨fun v hv => by simp at hv, fun he => ?_⟩
+      simp at he; subst he
+      exact ErrH.of_err (herr0 he0)
+    | ok sv =>
+      have ex0 := (hok0 sv he0).exec
+      have hsegA := hseg.right
+      simp only [joinBodies] at hsegA
+      have hsegc := hsegA.left.left
+      cases n with
+      | zero => simp [evalAlts]
+      | succ k =>
+        simp only [evalAlts]
+        cases hm : matchPat p sv ρ with
+        | none => simp
+        | some o =>
+          cases o with
+          | none => cases k <;> simp [evalAlts]
+          | some ρ' =>
+            simp only
+            obtain ⟨X, hX, ex1, hag', hdum'⟩ := prologue_exec p hp Φ hfr R0.2 fn upv fv K h stk sv ρ ρ'
+              (b + R0.1.length) (by rw [hz0, hlen]) (by rw [hs0]; exact hag) hdum hm hsegc.left.left
+            rw [hlen] at hX hag'
+            have hdom' : ∀ x ∈ patBinders p ++ dom, (lookup ρ' x).isSome = true := by
+              intro x hx
+              rcases List.mem_append.mp hx with hx | hx
+              · exact matchPat_isSome hm x (Or.inl hx)
+              · exact matchPat_isSome hm x (Or.inr (hdom x hx))
+            obtain ⟨hok, herr⟩ := hd2 K k (by omega) fn upv fv h ρ' (stk ++ X) hsegc.left.right
+              (htab.of_ext hf2t.ext) (by rw [← hf2i]; exact hinn)
+              (by simp [hpz, hX, hlen]) (by rw [hps]; exact hag') hdum' hdom'
+            have exP := ExecH.of_exec (ex0.trans ex1)
+            refine ⟨fun v hv => ?_, fun hv => ErrH.prepend exP (herr hv)⟩
+            obtain ⟨h', hxx, pc₁, stk₁, exH, dn⟩ := hok v hv
+            refine ⟨h', [], hxx, rfl, pc₁, stk₁, exP.trans exH, ?_⟩
+            have hjmp := hsegA.left.right.head
+            have hsl := hsegc.right
+            rw [hf1] at hsl hjmp ⊢
+            simp only [List.length_nil, Nat.add_zero] at hjmp ⊢
+            have hend : ∀ c : List Instr, b + (R0.1 ++ joinBodies (endOf (b + R0.1.length) [c]) [c]).length =
+                endOf (b + R0.1.length) [c] := by
+              intro c
+              simp [endOf, joinBodies]
+              omega
+            rw [hend]
+            by_cases h0 : (patVars st.stackSize p).length = 0
+            · have hXn : X = [] := List.eq_nil_of_length_eq_zero (by omega)
+              subst hXn
+              simp only [slideCode, h0, if_true, List.append_nil] at hjmp ⊢
+              have ex3 := Exec.step (stk := stk ++ [v]) (upv := upv) (h := h') hjmp
+                (step_jump fn upv _ _ _ h')
+              simpa using ((dn.to (by simp only [List.length_append]; omega) (by simp)).andThen ex3)
+            · simp only [slideCode, h0, if_false] at hsl hjmp ⊢
+              have ex3 := Exec.step (upv := upv) (h := h') hsl.head
+                (step_slide fn upv _ stk X v h' (patVars st.stackSize p).length hX)
+              have ex4 := Exec.step (stk := stk ++ [v]) (upv := upv) (h := h') hjmp
+                (step_jump fn upv _ _ _ h')
+              simpa using (((dn.to (by simp only [List.length_append]; omega) rfl).andThen ex3).to
+                (by simp only [List.length_append, List.length_cons, List.length_nil]; omega) rfl).andThen ex4
+
+
+/-- the invariant for every expression of F3 -/
+theorem body_spec3 (seIdx : Nat) {Φ : List (Sym × Nat)} {dom : List Sym} {e : Expr}
+    (hF : InF3 seIdx Φ dom e) : BodySpec3 seIdx Φ dom e := by
+  induction hF with
+  | base h => exact base_spec3 h
+  | lam hok _ ih => exact lam_spec hok ih
+  | letE hok _ ih => exact letE_spec3 hok ih
+  | matchRec hs hp hfr hr _ ih => exact matchRec_spec3 hs hp hfr hr ih
+
 
 end GluonModel.Proofs.Compile
